@@ -84,7 +84,7 @@ def run_subprocess(cfgs, hashseed, wd, name):
     pout = os.path.join(wd, name + "_out.json")
     with open(pin, "w") as f:
         json.dump(cfgs, f)
-    env = dict(os.environ, PYTHONHASHSEED=str(hashseed), PYTHONPATH="/verif:/repo")
+    env = dict(os.environ, PYTHONHASHSEED=str(hashseed), PYTHONPATH="/verif:" + C.REPO)
     p = subprocess.run([sys.executable, "-m", "harness.runone", pin, pout], cwd=C.VERIF, env=env, stdout=subprocess.PIPE, stderr=subprocess.STDOUT, text=True, timeout=1800)
     if p.returncode != 0:
         raise C.Machinery("runone failed: " + p.stdout[-2000:])
